@@ -1186,7 +1186,11 @@ func abs(x float64) float64 {
 }
 
 func roundup(x float64) float64 {
-	return math.Round(x*10) / 10
+	// Round half up to 1 decimal. The value is first rounded to 5 decimals
+	// so that binary imprecisions around an exact tie (e.g. 9.0499999999999989
+	// for 9.05) do not make it fall on the wrong side.
+	i := int(math.Round(x * 100000))
+	return float64((i+5000)/10000) / 10
 }
 
 // Nomenclature returns the CVSS v4.0 configuration used when scoring.
